@@ -276,8 +276,28 @@ static int vf_hist_blksize(void) { blkarray_list_t *b = vf_hist(); return b ? (i
 
 static int count(void **a) { int i, n = 0; for (i = 0; i < NSLOT; i++) n += a[i] != NULL; return n; }
 
+/* ownership probe (close-c09): after EVERY call, every object the decoder owns through a pointer that a failure exit
+ * could leave behind is looked at - the aligner's alignment (decoder_alignment hands it to state_align_search_init),
+ * the search's lattice.  A released object is reported by ASan at the call that left it behind (not only when a later
+ * call happens to use it); a reference count below 1 aborts like a failed assertion. */
+static void vf_probe_owned(decoder_t *d)
+{
+    if (d && d->align) {
+        alignment_t *al = ((state_align_search_t *)d->align)->al;
+        if (al && *(volatile int *)&al->refcount < 1) {
+            fprintf(stderr, "Assertion `the decoder's aligner owns a live alignment' failed (harness ownership probe): refcount %d\n", al->refcount);
+            abort();
+        }
+    }
+    if (d && d->search && d->search->dag && *(volatile int *)&d->search->dag->refcount < 1) {
+        fprintf(stderr, "Assertion `the search owns a live lattice' failed (harness ownership probe): refcount %d\n", d->search->dag->refcount);
+        abort();
+    }
+}
+
 static void inst_state(inst_t *x)
 {
+    vf_probe_owned(x->dec);
     if (x->dec) {
         int st = x->dec->acmod ? (int)x->dec->acmod->state : -1;
         printf("D=%d u=%c s=%d a=%d j=%d g=%d fr=%d", x->dec->refcount,
